@@ -2002,10 +2002,12 @@ func (e *AnonSymbolExpr) Value(ctx *hcl.EvalContext) (cty.Value, hcl.Diagnostics
 		return cty.DynamicVal, nil
 	}
 
+	verifAnonYield()
 	e.valuesLock.RLock()
 	defer e.valuesLock.RUnlock()
 
 	val, exists := e.values[ctx]
+	e.verifAnonEvent(verifAnonGet, ctx, val)
 	if !exists {
 		return cty.DynamicVal, nil
 	}
@@ -2015,6 +2017,7 @@ func (e *AnonSymbolExpr) Value(ctx *hcl.EvalContext) (cty.Value, hcl.Diagnostics
 // setValue sets a temporary local value for the expression when evaluated
 // in the given context, which must be non-nil.
 func (e *AnonSymbolExpr) setValue(ctx *hcl.EvalContext, val cty.Value) {
+	verifAnonYield()
 	e.valuesLock.Lock()
 	defer e.valuesLock.Unlock()
 
@@ -2025,9 +2028,11 @@ func (e *AnonSymbolExpr) setValue(ctx *hcl.EvalContext, val cty.Value) {
 		panic("can't setValue for a nil EvalContext")
 	}
 	e.values[ctx] = val
+	e.verifAnonEvent(verifAnonSet, ctx, val)
 }
 
 func (e *AnonSymbolExpr) clearValue(ctx *hcl.EvalContext) {
+	verifAnonYield()
 	e.valuesLock.Lock()
 	defer e.valuesLock.Unlock()
 
@@ -2038,6 +2043,7 @@ func (e *AnonSymbolExpr) clearValue(ctx *hcl.EvalContext) {
 		panic("can't clearValue for a nil EvalContext")
 	}
 	delete(e.values, ctx)
+	e.verifAnonEvent(verifAnonClear, ctx, cty.NilVal)
 }
 
 func (e *AnonSymbolExpr) walkChildNodes(w internalWalkFunc) {
